@@ -143,3 +143,710 @@ theorem s_fold (s : St) : ∀ (cur : List SEnt) (a : SLevel), (cur.map (·.typ))
         by_cases hnm : (s.get e.typ).named = true <;> simp [hnm]
       · rw [ih.2.2.1]; simp
       · rw [ih.2.2.2]; simp
+
+/-! ## 3. tables -/
+
+theorem has_iff (t : Tbl) (k : SelKey) : t.has k = true ↔ ∃ v, (k, v) ∈ t := by
+  simp only [Tbl.has, List.any_eq_true, beq_iff_eq]
+  constructor
+  · rintro ⟨⟨k', v⟩, he, rfl⟩; exact ⟨v, he⟩
+  · rintro ⟨v, he⟩; exact ⟨(k, v), he, rfl⟩
+
+theorem has_false_iff (t : Tbl) (k : SelKey) : t.has k = false ↔ ∀ v, (k, v) ∉ t := by
+  rw [← Bool.not_eq_true, has_iff]; simp
+
+theorem put_new (t : Tbl) (k : SelKey) (v : Option Method) (h : t.has k = false) : t.put k v = t ++ [(k, v)] := by
+  simp [Tbl.put, h]
+
+/-- the table entry `addOne` makes for a fresh key -/
+def entOf (x : Method × Bool × Bool) : SelKey × Option Method :=
+  (mkey x.1, if (x.2.2 || !x.2.1) then some x.1 else none)
+
+theorem foldl_addOne : ∀ (l : List (Method × Bool × Bool)) (t : Tbl),
+    (t.map (·.1) ++ l.map (fun x => mkey x.1)).Nodup → l.foldl (addOne' false) t = t ++ l.map entOf
+  | [], t, _ => by simp
+  | x :: r, t, hn => by
+    have hh : t.has (mkey x.1) = false := by
+      rw [has_false_iff]
+      intro v hv
+      rw [List.nodup_append] at hn
+      exact hn.2.2 (mkey x.1) (List.mem_map_of_mem (f := (·.1)) hv) (mkey x.1) (by simp) rfl
+    have step : addOne' false t x = t ++ [entOf x] := by
+      obtain ⟨m, pr, ind⟩ := x
+      have hh' : t.has (m.name, m.pkg) = false := hh
+      unfold addOne' addOne entOf
+      simp only [Bool.not_false, Bool.true_and, hh', mkey]
+      by_cases hc : (ind || !pr) = true
+      · simp [hc, put_new _ _ _ hh']
+      · have : (ind || !pr) = false := by simpa using hc
+        simp [this, put_new _ _ _ hh']
+    simp only [List.foldl_cons, step]
+    rw [foldl_addOne r _ (by simpa [List.map_append, entOf] using hn)]
+    simp
+
+/-- `consolidateMultiples` changes nothing when no type occurs twice -/
+theorem consolidate_nodup : ∀ (l acc : List SEnt), ((acc ++ l).map (·.typ)).Nodup → consolidate acc l = acc ++ l
+  | [], acc, _ => by simp [consolidate]
+  | e :: r, acc, hn => by
+    have hnot : acc.any (fun x => x.typ == e.typ) = false := by
+      rw [List.any_eq_false]
+      intro x hx hxe
+      simp only [List.map_append, List.map_cons] at hn
+      rw [List.nodup_append] at hn
+      exact hn.2.2 x.typ (List.mem_map_of_mem hx) e.typ (by simp) (by simpa using hxe)
+    simp only [consolidate, hnot, Bool.false_eq_true, if_false]
+    rw [consolidate_nodup r (acc ++ [e]) (by simpa using hn)]
+    simp
+
+theorem has_append (t : Tbl) (k k' : SelKey) (v : Option Method) : Tbl.has (t ++ [(k, v)]) k' = (t.has k' || k == k') := by
+  simp [Tbl.has, List.any_append]
+
+/-- membership in the result of the method pass of `mergeLevel` -/
+theorem tfold_mem (F : List SelKey) : ∀ (T B : Tbl), (T.map (·.1)).Nodup → ∀ (k : SelKey) (v : Option Method),
+    (k, v) ∈ T.foldl (fun b e => if b.has e.1 then b else b ++ [(e.1, if F.contains e.1 then none else e.2)]) B ↔
+      (k, v) ∈ B ∨ (B.has k = false ∧ ∃ v0, (k, v0) ∈ T ∧ v = if F.contains k then none else v0)
+  | [], B, _, k, v => by simp
+  | e :: T', B, hn, k, v => by
+    obtain ⟨ek, ev⟩ := e
+    simp only [List.map_cons, List.nodup_cons] at hn
+    have hne : ∀ v0, (k, v0) ∈ T' → k ≠ ek := fun v0 h0 hk => hn.1 (by rw [← hk]; exact List.mem_map_of_mem (f := (·.1)) h0)
+    simp only [List.foldl_cons]
+    by_cases hb : B.has ek = true
+    · simp only [hb, if_true]
+      rw [tfold_mem F T' B hn.2 k v]
+      constructor
+      · rintro (h | ⟨h1, v0, h2, h3⟩)
+        · exact Or.inl h
+        · exact Or.inr ⟨h1, v0, List.mem_cons_of_mem _ h2, h3⟩
+      · rintro (h | ⟨h1, v0, h2, h3⟩)
+        · exact Or.inl h
+        · rcases List.mem_cons.mp h2 with h2 | h2
+          · simp only [Prod.mk.injEq] at h2
+            rw [h2.1, hb] at h1; cases h1
+          · exact Or.inr ⟨h1, v0, h2, h3⟩
+    · have hb' : B.has ek = false := by simpa using hb
+      simp only [hb', Bool.false_eq_true, if_false]
+      rw [tfold_mem F T' _ hn.2 k v]
+      simp only [List.mem_append, List.mem_singleton, Prod.mk.injEq, has_append, Bool.or_eq_false_iff, beq_eq_false_iff_ne]
+      constructor
+      · rintro ((h | ⟨rfl, rfl⟩) | ⟨⟨h1, _⟩, v0, h2, h3⟩)
+        · exact Or.inl h
+        · exact Or.inr ⟨hb', ev, List.mem_cons_self, rfl⟩
+        · exact Or.inr ⟨h1, v0, List.mem_cons_of_mem _ h2, h3⟩
+      · rintro (h | ⟨h1, v0, h2, h3⟩)
+        · exact Or.inl (Or.inl h)
+        · rcases List.mem_cons.mp h2 with h2 | h2
+          · simp only [Prod.mk.injEq] at h2
+            obtain ⟨rfl, rfl⟩ := h2
+            exact Or.inl (Or.inr ⟨rfl, h3⟩)
+          · exact Or.inr ⟨⟨h1, fun hh => hne v0 h2 hh.symm⟩, v0, h2, h3⟩
+
+/-- membership in the result of the field pass of `mergeLevel` -/
+theorem ffold_mem : ∀ (F : List SelKey) (B : Tbl) (k : SelKey) (v : Option Method),
+    (k, v) ∈ F.foldl (fun b q => if b.has q then b else b ++ [(q, none)]) B ↔
+      (k, v) ∈ B ∨ (v = none ∧ k ∈ F ∧ B.has k = false)
+  | [], B, k, v => by simp
+  | q :: F', B, k, v => by
+    simp only [List.foldl_cons]
+    by_cases hb : B.has q = true
+    · simp only [hb, if_true]
+      rw [ffold_mem F' B k v]
+      constructor
+      · rintro (h | ⟨h1, h2, h3⟩)
+        · exact Or.inl h
+        · exact Or.inr ⟨h1, List.mem_cons_of_mem _ h2, h3⟩
+      · rintro (h | ⟨h1, h2, h3⟩)
+        · exact Or.inl h
+        · rcases List.mem_cons.mp h2 with rfl | h2
+          · rw [hb] at h3; cases h3
+          · exact Or.inr ⟨h1, h2, h3⟩
+    · have hb' : B.has q = false := by simpa using hb
+      simp only [hb', Bool.false_eq_true, if_false]
+      rw [ffold_mem F' _ k v]
+      simp only [List.mem_append, List.mem_singleton, Prod.mk.injEq, has_append, Bool.or_eq_false_iff, beq_eq_false_iff_ne]
+      constructor
+      · rintro ((h | ⟨rfl, rfl⟩) | ⟨h1, h2, h3, _⟩)
+        · exact Or.inl h
+        · exact Or.inr ⟨rfl, List.mem_cons_self, hb'⟩
+        · exact Or.inr ⟨h1, List.mem_cons_of_mem _ h2, h3⟩
+      · rintro (h | ⟨rfl, h2, h3⟩)
+        · exact Or.inl (Or.inl h)
+        · by_cases hq : q = k
+          · exact Or.inl (Or.inr ⟨hq.symm, rfl⟩)
+          · rcases List.mem_cons.mp h2 with rfl | h2
+            · exact absurd rfl hq
+            · exact Or.inr ⟨rfl, h2, h3, hq⟩
+
+theorem merge_some (B T : Tbl) (F : List SelKey) (hT : (T.map (·.1)).Nodup) (k : SelKey) (m : Method) :
+    (k, some m) ∈ mergeLevel B T F ↔ (k, some m) ∈ B ∨ (B.has k = false ∧ F.contains k = false ∧ (k, some m) ∈ T) := by
+  unfold mergeLevel
+  rw [ffold_mem, tfold_mem F T B hT]
+  constructor
+  · rintro ((h | ⟨h1, v0, h2, h3⟩) | ⟨h, _⟩)
+    · exact Or.inl h
+    · by_cases hc : F.contains k = true
+      · rw [if_pos hc] at h3; cases h3
+      · have hc' : F.contains k = false := by simpa using hc
+        simp only [hc', Bool.false_eq_true, if_false] at h3
+        exact Or.inr ⟨h1, hc', h3 ▸ h2⟩
+    · cases h
+  · rintro (h | ⟨h1, h2, h3⟩)
+    · exact Or.inl (Or.inl h)
+    · exact Or.inl (Or.inr ⟨h1, some m, h3, by simp only [h2, Bool.false_eq_true, if_false]⟩)
+
+theorem merge_none (B T : Tbl) (F : List SelKey) (hT : (T.map (·.1)).Nodup) (k : SelKey) :
+    (k, none) ∈ mergeLevel B T F → (k, none) ∈ B ∨ k ∈ F ∨ (k, none) ∈ T := by
+  unfold mergeLevel
+  rw [ffold_mem, tfold_mem F T B hT]
+  rintro ((h | ⟨_, v0, h2, h3⟩) | ⟨_, h, _⟩)
+  · exact Or.inl h
+  · by_cases hc : F.contains k = true
+    · exact Or.inr (Or.inl (by simpa using hc))
+    · have hc' : F.contains k = false := by simpa using hc
+      simp only [hc', Bool.false_eq_true, if_false] at h3
+      exact Or.inr (Or.inr (h3 ▸ h2))
+  · exact Or.inr (Or.inl h)
+
+/-- membership in `addBase` when equal names in `mset` mean equal methods -/
+theorem addBase_mem : ∀ (mset B : List Method), (∀ a ∈ mset, ∀ b ∈ mset, a.name = b.name → a = b) → ∀ m,
+    m ∈ addBase B mset ↔ m ∈ B ∨ (m ∈ mset ∧ ∀ x ∈ B, x.name ≠ m.name)
+  | [], B, _, m => by simp [addBase]
+  | a :: r, B, hf, m => by
+    have hfr : ∀ x ∈ r, ∀ y ∈ r, x.name = y.name → x = y :=
+      fun x hx y hy => hf x (List.mem_cons_of_mem _ hx) y (List.mem_cons_of_mem _ hy)
+    have step : addBase B (a :: r) = addBase (if B.any (fun x => x.name == a.name) then B else B ++ [a]) r := by
+      simp [addBase]
+    rw [step]
+    by_cases hb : B.any (fun x => x.name == a.name) = true
+    · simp only [hb, if_true]
+      rw [addBase_mem r B hfr m]
+      obtain ⟨x, hx, hxa⟩ := List.any_eq_true.mp hb
+      have hxa' : x.name = a.name := by simpa using hxa
+      constructor
+      · rintro (h | ⟨h1, h2⟩)
+        · exact Or.inl h
+        · exact Or.inr ⟨List.mem_cons_of_mem _ h1, h2⟩
+      · rintro (h | ⟨h1, h2⟩)
+        · exact Or.inl h
+        · rcases List.mem_cons.mp h1 with rfl | h1
+          · exact absurd hxa' (h2 x hx)
+          · exact Or.inr ⟨h1, h2⟩
+    · have hb' : ∀ x ∈ B, x.name ≠ a.name := by
+        intro x hx hxa
+        exact hb (List.any_eq_true.mpr ⟨x, hx, by simpa using hxa⟩)
+      simp only [hb, Bool.false_eq_true, if_false]
+      rw [addBase_mem r _ hfr m]
+      simp only [List.mem_append, List.mem_singleton]
+      constructor
+      · rintro ((h | rfl) | ⟨h1, h2⟩)
+        · exact Or.inl h
+        · exact Or.inr ⟨List.mem_cons_self, hb'⟩
+        · exact Or.inr ⟨List.mem_cons_of_mem _ h1, fun x hx => h2 x (Or.inl hx)⟩
+      · rintro (h | ⟨h1, h2⟩)
+        · exact Or.inl (Or.inl h)
+        · rcases List.mem_cons.mp h1 with rfl | h1
+          · exact Or.inl (Or.inr rfl)
+          · by_cases hn : a.name = m.name
+            · have := hf a List.mem_cons_self m (List.mem_cons_of_mem _ h1) hn
+              exact Or.inl (Or.inr this.symm)
+            · refine Or.inr ⟨h1, ?_⟩
+              rintro x (hx | rfl)
+              · exact h2 x hx
+              · exact hn
+
+/-! ## 4. the hypotheses, and how the two walks see one entry -/
+
+def lift (e : Ent) : SEnt := ⟨e.typ, e.indirect, false⟩
+
+/-- the methods declared at a type, as both walks can meet them -/
+def declM (s : St) (u : Nat) : List Method :=
+  if (s.get u).kind = kInterface then (s.get u).methods
+  else if (s.get u).named then (s.get u).methods ++ ptrMethods s u else []
+
+/-- the types embedded in `u` (pointers dereferenced) -/
+def succIds (s : St) (u : Nat) : List Nat :=
+  if (s.get u).kind = kStruct then
+    ((s.get u).fields.filter (·.embedded)).map fun f => if (s.get f.typ).kind = kPtr then (s.get f.typ).elem else f.typ
+  else []
+
+/-- `U` is a set of types that contains the embedding closure and on which the recorded defects of `$methodSet` cannot show:
+    well-formed embedding (Go syntax), one package qualifier per method name (`pkgname`), no field named like a method
+    (`fieldhide`), and pointer-receiver method names not reused by other types (`ptrshadow`). -/
+structure CleanOn (s : St) (U : List Nat) : Prop where
+  closed : ∀ u ∈ U, ∀ v ∈ succIds s u, v ∈ U
+  embwf : ∀ u ∈ U, (s.get u).kind = kStruct → ∀ f ∈ (s.get u).fields, f.embedded = true →
+    (if (s.get f.typ).kind = kPtr then (s.get f.typ).named = false ∧ (s.get (s.get f.typ).elem).named = true
+     else (s.get f.typ).named = true)
+  ifaceptr : ∀ u ∈ U, (s.get u).kind = kInterface → ptrMethods s u = []
+  pkg : ∀ u ∈ U, ∀ v ∈ U, ∀ m ∈ declM s u, ∀ m' ∈ declM s v, m.name = m'.name → m.pkg = m'.pkg
+  field : ∀ u ∈ U, (s.get u).kind = kStruct → ∀ f ∈ (s.get u).fields, ∀ v ∈ U, ∀ m ∈ declM s v, f.name ≠ m.name
+  ptr : ∀ u ∈ U, (s.get u).named = true → (s.get u).kind ≠ kInterface → ∀ m ∈ ptrMethods s u,
+    ∀ v ∈ U, ∀ m' ∈ declM s v, m'.name = m.name → v = u
+
+theorem mNext_typ (s : St) (e : Ent) : (mNext s e).map (·.typ) = succIds s e.typ := by
+  unfold mNext succIds
+  split
+  · simp only [List.map_map]
+    apply List.map_congr_left
+    intro f _
+    simp only [Function.comp]
+    split <;> rfl
+  · rfl
+
+theorem declared_eq (s : St) (t : Nat) :
+    declaredMethods s (ptrOfM s) t = if (s.get t).kind = kInterface then [] else
+      (s.get t).methods.map (fun m => (m, false)) ++ (ptrMethods s t).map (fun m => (m, true)) := by
+  unfold declaredMethods ptrMethods ptrOfM
+  cases s.cache.lookup (cPtr, dec t) <;> by_cases hk : (s.get t).kind = kInterface <;> simp [hk]
+
+/-- both walks meet the same declared methods at an entry -/
+theorem sAdds_methods (s : St) (e : Ent) : (sAdds s (lift e)).map (·.1) = declM s e.typ := by
+  unfold sAdds declM lift
+  simp only [declared_eq]
+  by_cases hf : (s.get e.typ).kind = kInterface <;> by_cases hn : (s.get e.typ).named = true <;>
+    simp [hf, hn, List.map_append, Function.comp_def]
+
+/-- the model collects exactly the methods the reference walk counts as members (receiver rule) -/
+theorem mMset_real (s : St) (U : List Nat) (h : CleanOn s U) (e : Ent) (he : e.typ ∈ U) (m : Method) :
+    m ∈ mMset s e ↔ ∃ x ∈ sAdds s (lift e), x.1 = m ∧ (x.2.2 || !x.2.1) = true := by
+  unfold mMset sAdds lift
+  simp only [declared_eq]
+  by_cases hf : (s.get e.typ).kind = kInterface
+  · have hp := h.ifaceptr e.typ he hf
+    by_cases hn : (s.get e.typ).named = true <;> simp [hf, hn, hp]
+  · by_cases hn : (s.get e.typ).named = true <;> by_cases hi : e.indirect = true <;>
+      simp [hf, hn, hi]
+
+/-- an entry the reference walk records as a non-member is a pointer-receiver method reached without indirection -/
+theorem sAdds_blocked (s : St) (e : Ent) (x : Method × Bool × Bool) (hx : x ∈ sAdds s (lift e))
+    (hr : (x.2.2 || !x.2.1) = false) :
+    (s.get e.typ).named = true ∧ (s.get e.typ).kind ≠ kInterface ∧ x.1 ∈ ptrMethods s e.typ := by
+  unfold sAdds lift at hx
+  simp only [declared_eq] at hx
+  by_cases hf : (s.get e.typ).kind = kInterface <;> by_cases hn : (s.get e.typ).named = true <;>
+    simp [hf, hn] at hx
+  · obtain ⟨m, _, rfl⟩ := hx; simp at hr
+  · obtain ⟨m, _, rfl⟩ := hx; simp at hr
+  · rcases hx with ⟨m, _, rfl⟩ | ⟨m, hm, rfl⟩
+    · simp at hr
+    · exact ⟨hn, hf, hm⟩
+
+theorem sNext_lift (s : St) (U : List Nat) (h : CleanOn s U) (e : Ent) (he : e.typ ∈ U) :
+    sNext s (lift e) = (mNext s e).map lift := by
+  unfold sNext mNext lift
+  by_cases hs : (s.get e.typ).kind = kStruct
+  · simp only [hs, if_true, List.map_map]
+    apply List.map_congr_left
+    intro f hf
+    have hf' := List.mem_filter.mp hf
+    have hw := h.embwf e.typ he hs f hf'.1 hf'.2
+    simp only [Function.comp]
+    by_cases hp : (s.get f.typ).kind = kPtr
+    · simp only [hp, if_true] at hw
+      simp [hp, hw.1]
+    · simp [hp]
+  · simp [hs]
+
+/-- successors are named types -/
+theorem mNext_named (s : St) (U : List Nat) (h : CleanOn s U) (e : Ent) (he : e.typ ∈ U) :
+    ∀ x ∈ mNext s e, (s.get x.typ).named = true := by
+  unfold mNext
+  by_cases hs : (s.get e.typ).kind = kStruct
+  · simp only [hs, if_true, List.mem_map]
+    rintro x ⟨f, hf, rfl⟩
+    have hf' := List.mem_filter.mp hf
+    have hw := h.embwf e.typ he hs f hf'.1 hf'.2
+    by_cases hp : (s.get f.typ).kind = kPtr
+    · simp only [hp, if_true] at hw ⊢; exact hw.2
+    · simp only [hp, if_false] at hw ⊢; exact hw
+  · simp [hs]
+
+theorem sFields_name (s : St) (e : Ent) (k : SelKey) (hk : k ∈ sFields s (lift e)) :
+    (s.get e.typ).kind = kStruct ∧ ∃ f ∈ (s.get e.typ).fields, k.1 = f.name := by
+  unfold sFields lift at hk
+  by_cases hs : (s.get e.typ).kind = kStruct
+  · simp only [hs, if_true, List.mem_map] at hk
+    obtain ⟨f, hf, rfl⟩ := hk
+    exact ⟨hs, f, hf, rfl⟩
+  · simp [hs] at hk
+
+/-! ## 5. one level preserves the invariant -/
+
+theorem nodup_of_comp {α β γ : Type} (f : α → β) (g : β → γ) : ∀ (l : List α),
+    (l.map (fun x => g (f x))).Nodup → (l.map f).Nodup
+  | [], _ => by simp
+  | a :: l, h => by
+    simp only [List.map_cons, List.nodup_cons] at h ⊢
+    refine ⟨?_, nodup_of_comp f g l h.2⟩
+    intro hm
+    apply h.1
+    simp only [List.mem_map] at hm ⊢
+    obtain ⟨x, hx, hxe⟩ := hm
+    exact ⟨x, hx, by rw [hxe]⟩
+
+theorem inj_of_nodup_map {α β : Type} (f : α → β) : ∀ (l : List α), (l.map f).Nodup →
+    ∀ a ∈ l, ∀ b ∈ l, f a = f b → a = b
+  | [], _, a, ha, _, _, _ => by cases ha
+  | x :: l, h, a, ha, b, hb, hab => by
+    simp only [List.map_cons, List.nodup_cons] at h
+    rcases List.mem_cons.mp ha with rfl | ha' <;> rcases List.mem_cons.mp hb with rfl | hb'
+    · rfl
+    · exact absurd (by rw [hab]; exact List.mem_map_of_mem hb') h.1
+    · exact absurd (by rw [← hab]; exact List.mem_map_of_mem ha') h.1
+    · exact inj_of_nodup_map f l h.2 a ha' b hb' hab
+
+/-- what links the two `base` tables between levels -/
+structure Inv (s : St) (U : List Nat) (mseen : List Nat) (baseM : List Method) (baseS : Tbl) : Prop where
+  j1 : ∀ m ∈ baseM, (mkey m, some m) ∈ baseS
+  j2 : ∀ k m, (k, some m) ∈ baseS → k = mkey m ∧ m ∈ baseM
+  j3 : ∀ m ∈ baseM, ∃ u ∈ U, m ∈ declM s u
+  j4 : ∀ k, (k, none) ∈ baseS → ∀ v ∈ U, v ∉ mseen → ∀ m' ∈ declM s v, m'.name ≠ k.1
+
+theorem inv_final (s : St) (U : List Nat) (mseen : List Nat) (baseM : List Method) (baseS : Tbl)
+    (inv : Inv s U mseen baseM baseS) (m : Method) : m ∈ baseM ↔ m ∈ baseS.filterMap (·.2) := by
+  simp only [List.mem_filterMap]
+  constructor
+  · intro h; exact ⟨(mkey m, some m), inv.j1 m h, rfl⟩
+  · rintro ⟨⟨k, v⟩, he, hv⟩
+    simp only at hv
+    subst hv
+    exact (inv.j2 k m he).2
+
+theorem level_step (s : St) (U : List Nat) (h : CleanOn s U) (proc : List Ent) (mseen : List Nat)
+    (baseM : List Method) (baseS : Tbl)
+    (hU : ∀ e ∈ proc, e.typ ∈ U) (hun : ∀ e ∈ proc, e.typ ∉ mseen)
+    (hnames : ((proc.flatMap fun e => declM s e.typ).map (·.name)).Nodup)
+    (inv : Inv s U mseen baseM baseS) :
+    Inv s U ((proc.map (·.typ)).reverse ++ mseen) (addBase baseM (proc.flatMap (mMset s)))
+      (mergeLevel baseS ((proc.flatMap fun e => sAdds s (lift e)).map entOf) (proc.flatMap fun e => sFields s (lift e))) := by
+  -- the list of additions and its properties
+  have hLm : (proc.flatMap fun e => sAdds s (lift e)).map (·.1) = proc.flatMap fun e => declM s e.typ := by
+    rw [List.map_flatMap]
+    congr 1
+    funext e
+    exact sAdds_methods s e
+  have hLn : ((proc.flatMap fun e => sAdds s (lift e)).map (fun x => x.1.name)).Nodup := by
+    have : (proc.flatMap fun e => sAdds s (lift e)).map (fun x => x.1.name) =
+        ((proc.flatMap fun e => sAdds s (lift e)).map (·.1)).map (·.name) := by simp [List.map_map, Function.comp_def]
+    rw [this, hLm]; exact hnames
+  have hLinj := inj_of_nodup_map (fun x : Method × Bool × Bool => x.1.name) _ hLn
+  have hT : (((proc.flatMap fun e => sAdds s (lift e)).map entOf).map (·.1)).Nodup := by
+    have : ((proc.flatMap fun e => sAdds s (lift e)).map entOf).map (·.1) =
+        (proc.flatMap fun e => sAdds s (lift e)).map (fun x => mkey x.1) := by simp [List.map_map, Function.comp_def, entOf]
+    rw [this]
+    exact nodup_of_comp (fun x : Method × Bool × Bool => mkey x.1) (fun k => k.1) _ hLn
+  -- members of the model's `mset`
+  have hmem : ∀ m, m ∈ proc.flatMap (mMset s) ↔
+      ∃ e ∈ proc, ∃ x ∈ sAdds s (lift e), x.1 = m ∧ (x.2.2 || !x.2.1) = true := by
+    intro m
+    simp only [List.mem_flatMap]
+    constructor
+    · rintro ⟨e, he, hm⟩; exact ⟨e, he, (mMset_real s U h e (hU e he) m).mp hm⟩
+    · rintro ⟨e, he, hx⟩; exact ⟨e, he, (mMset_real s U h e (hU e he) m).mpr hx⟩
+  have hdecl : ∀ e ∈ proc, ∀ x ∈ sAdds s (lift e), x.1 ∈ declM s e.typ := by
+    intro e _ x hx
+    rw [← sAdds_methods s e]
+    exact List.mem_map_of_mem hx
+  have hfun : ∀ a ∈ proc.flatMap (mMset s), ∀ b ∈ proc.flatMap (mMset s), a.name = b.name → a = b := by
+    intro a ha b hb hab
+    obtain ⟨e1, he1, x1, hx1, rfl, _⟩ := (hmem a).mp ha
+    obtain ⟨e2, he2, x2, hx2, rfl, _⟩ := (hmem b).mp hb
+    have := hLinj x1 (List.mem_flatMap.mpr ⟨e1, he1, hx1⟩) x2 (List.mem_flatMap.mpr ⟨e2, he2, hx2⟩) hab
+    rw [this]
+  have hfield : ∀ k ∈ proc.flatMap (fun e => sFields s (lift e)), ∀ v ∈ U, ∀ m' ∈ declM s v, m'.name ≠ k.1 := by
+    intro k hk v hv m' hm'
+    obtain ⟨e, he, hke⟩ := List.mem_flatMap.mp hk
+    obtain ⟨hs, f, hf, hkf⟩ := sFields_name s e k hke
+    rw [hkf]
+    exact fun hh => h.field e.typ (hU e he) hs f hf v hv m' hm' hh.symm
+  constructor
+  · -- j1
+    intro m hm
+    rw [merge_some _ _ _ hT]
+    rcases (addBase_mem _ _ hfun m).mp hm with hb | ⟨hms, hne⟩
+    · exact Or.inl (inv.j1 m hb)
+    · obtain ⟨e, he, x, hx, rfl, hr⟩ := (hmem m).mp hms
+      refine Or.inr ⟨?_, ?_, ?_⟩
+      · rw [has_false_iff]
+        intro v hv
+        cases v with
+        | some y =>
+          have := inv.j2 _ y hv
+          have hname : y.name = x.1.name := by have := congrArg Prod.fst this.1; simpa [mkey] using this.symm
+          exact hne y this.2 hname
+        | none =>
+          exact inv.j4 _ hv e.typ (hU e he) (hun e he) x.1 (hdecl e he x hx) rfl
+      · rw [← Bool.not_eq_true, List.contains_iff_mem]
+        intro hk
+        exact hfield _ hk e.typ (hU e he) x.1 (hdecl e he x hx) rfl
+      · refine List.mem_map.mpr ⟨x, List.mem_flatMap.mpr ⟨e, he, hx⟩, ?_⟩
+        simp [entOf, hr]
+  · -- j2
+    intro k m hk
+    rw [merge_some _ _ _ hT] at hk
+    rcases hk with hb | ⟨hhas, _, hTm⟩
+    · have := inv.j2 k m hb
+      exact ⟨this.1, (addBase_mem _ _ hfun m).mpr (Or.inl this.2)⟩
+    · obtain ⟨x, hxL, hxe⟩ := List.mem_map.mp hTm
+      obtain ⟨e, he, hx⟩ := List.mem_flatMap.mp hxL
+      have hr : (x.2.2 || !x.2.1) = true := by
+        by_cases hr : (x.2.2 || !x.2.1) = true
+        · exact hr
+        · simp [entOf, hr] at hxe
+      simp only [entOf, hr, if_true, Prod.mk.injEq, Option.some.injEq] at hxe
+      obtain ⟨rfl, rfl⟩ := hxe
+      refine ⟨rfl, (addBase_mem _ _ hfun _).mpr (Or.inr ⟨(hmem _).mpr ⟨e, he, x, hx, rfl, hr⟩, ?_⟩)⟩
+      intro y hy hyn
+      obtain ⟨u, hu, hyu⟩ := inv.j3 y hy
+      have hp := h.pkg u hu e.typ (hU e he) y hyu x.1 (hdecl e he x hx) hyn
+      have : mkey y = mkey x.1 := by simp [mkey, hyn, hp]
+      have hin := inv.j1 y hy
+      rw [this] at hin
+      rw [has_false_iff] at hhas
+      exact hhas _ hin
+  · -- j3
+    intro m hm
+    rcases (addBase_mem _ _ hfun m).mp hm with hb | ⟨hms, _⟩
+    · exact inv.j3 m hb
+    · obtain ⟨e, he, x, hx, rfl, _⟩ := (hmem m).mp hms
+      exact ⟨e.typ, hU e he, hdecl e he x hx⟩
+  · -- j4
+    intro k hk v hv hvs m' hm'
+    have hvs' : v ∉ mseen := fun hh => hvs (List.mem_append_right _ hh)
+    rcases merge_none _ _ _ hT k hk with hb | hF | hTn
+    · exact inv.j4 k hb v hv hvs' m' hm'
+    · exact hfield k hF v hv m' hm'
+    · obtain ⟨x, hxL, hxe⟩ := List.mem_map.mp hTn
+      obtain ⟨e, he, hx⟩ := List.mem_flatMap.mp hxL
+      have hr : (x.2.2 || !x.2.1) = false := by
+        by_cases hr : (x.2.2 || !x.2.1) = true
+        · simp [entOf, hr] at hxe
+        · simpa using hr
+      simp only [entOf, hr, Bool.false_eq_true, if_false, Prod.mk.injEq, and_true] at hxe
+      obtain ⟨hn, hk', hp⟩ := sAdds_blocked s e x hx hr
+      intro hname
+      have hve : v = e.typ := h.ptr e.typ (hU e he) hn hk' x.1 hp v hv m' hm' (by rw [hname, ← hxe]; rfl)
+      apply hvs
+      rw [hve]
+      exact List.mem_append_left _ (List.mem_reverse.mpr (List.mem_map_of_mem he))
+
+/-! ## 6. the two loops, level by level -/
+
+/-- the walk-dependent part of the hypothesis ("no ambiguous selector at its depth"): at every depth no type is reached
+    twice (no diamond) and no method name is declared twice among the types first reached at that depth -/
+def WalkClean (s : St) : Nat → List Ent → List Nat → Prop
+  | 0, _, _ => True
+  | f + 1, cur, seen =>
+    (cur.map (·.typ)).Nodup ∧
+    (((cur.filter fun e => !seen.contains e.typ).flatMap fun e => declM s e.typ).map (·.name)).Nodup ∧
+    WalkClean s f ((cur.filter fun e => !seen.contains e.typ).flatMap (mNext s))
+      (((cur.filter fun e => !seen.contains e.typ).map (·.typ)).reverse ++ seen)
+
+instance (s : St) : ∀ (f : Nat) (cur : List Ent) (seen : List Nat), Decidable (WalkClean s f cur seen)
+  | 0, _, _ => isTrue trivial
+  | f + 1, cur, seen =>
+    have := instDecidableWalkClean s f ((cur.filter fun e => !seen.contains e.typ).flatMap (mNext s))
+      (((cur.filter fun e => !seen.contains e.typ).map (·.typ)).reverse ++ seen)
+    by unfold WalkClean; infer_instance
+
+theorem msLoop_nil (s : St) (f : Nat) (seen : List Nat) (base : List Method) (al : List Nat) :
+    msLoop s f [] seen base al = (base, al) := by cases f <;> rfl
+
+theorem sLoop_nil (s : St) (p : Nat → Option Nat) (f : Nat) (seen : List Nat) (base : Tbl) :
+    sLoop s p f [] seen base = base := by cases f <;> rfl
+
+theorem flatMap_congr' {α β : Type} {f g : α → List β} : ∀ (l : List α), (∀ x ∈ l, f x = g x) → l.flatMap f = l.flatMap g
+  | [], _ => rfl
+  | a :: l, h => by
+    simp only [List.flatMap_cons]
+    rw [h a (by simp), flatMap_congr' l (fun x hx => h x (by simp [hx]))]
+
+theorem loops_agree (s : St) (U : List Nat) (h : CleanOn s U) : ∀ (f : Nat) (cur : List Ent) (mseen sseen : List Nat)
+    (baseM : List Method) (baseS : Tbl) (al : List Nat),
+    WalkClean s f cur mseen → (∀ e ∈ cur, e.typ ∈ U) →
+    (∀ e ∈ cur, (s.get e.typ).named = true ∨ e.typ ∉ mseen) →
+    (∀ i, (s.get i).named = true → (i ∈ sseen ↔ i ∈ mseen)) → Inv s U mseen baseM baseS →
+    ∀ m, m ∈ (msLoop s f cur mseen baseM al).1 ↔ m ∈ (sLoop s (ptrOfM s) f (cur.map lift) sseen baseS).filterMap (·.2)
+  | 0, cur, mseen, sseen, baseM, baseS, al, _, _, _, _, inv => by
+    intro m
+    simp only [msLoop, sLoop]
+    exact inv_final s U mseen baseM baseS inv m
+  | f + 1, [], mseen, sseen, baseM, baseS, al, _, _, _, _, inv => by
+    intro m
+    simp only [msLoop, sLoop, List.map_nil]
+    exact inv_final s U mseen baseM baseS inv m
+  | f + 1, e0 :: r0, mseen, sseen, baseM, baseS, al, hw, hU, hnamed, hseen, inv => by
+    intro m
+    obtain ⟨hnd, hnames, hwnext⟩ := hw
+    -- the model level
+    have hmf := ms_fold s (e0 :: r0) { seen := mseen, mset := [], next := [], allocs := al } hnd
+    simp only [List.nil_append] at hmf
+    -- the reference level
+    have hnd' : (((e0 :: r0).map lift).map (·.typ)).Nodup := by
+      have : ((e0 :: r0).map lift).map (·.typ) = (e0 :: r0).map (·.typ) := by simp [List.map_map, Function.comp_def, lift]
+      rw [this]; exact hnd
+    have hmult : ∀ e ∈ (e0 :: r0).map lift, e.multiples = false := by
+      intro e he; obtain ⟨x, _, rfl⟩ := List.mem_map.mp he; rfl
+    have hsf := s_fold s ((e0 :: r0).map lift) { seen := sseen, mset := [], fset := [], next := [] } hnd' hmult
+    simp only [List.nil_append] at hsf
+    -- the same entries are processed
+    have hproc : ((e0 :: r0).map lift).filter (sUnseen s sseen) =
+        ((e0 :: r0).filter fun e => !mseen.contains e.typ).map lift := by
+      rw [List.filter_map]
+      congr 1
+      apply List.filter_congr
+      intro e he
+      simp only [Function.comp, sUnseen, lift]
+      by_cases hn' : (s.get e.typ).named = true
+      · have := hseen e.typ hn'
+        by_cases hc : e.typ ∈ mseen
+        · have hc2 := this.mpr hc
+          simp [hn', hc, hc2]
+        · have hc2 : e.typ ∉ sseen := fun hh => hc (this.mp hh)
+          simp [hn', hc, hc2]
+      · have hc : e.typ ∉ mseen := (hnamed e he).resolve_left hn'
+        simp [hn', hc]
+    generalize hp : ((e0 :: r0).filter fun e => !mseen.contains e.typ) = proc at hmf hproc hnames hwnext
+    have hpU : ∀ e ∈ proc, e.typ ∈ U := by
+      intro e he; rw [← hp] at he; exact hU e (List.mem_filter.mp he).1
+    have hpun : ∀ e ∈ proc, e.typ ∉ mseen := by
+      intro e he; rw [← hp] at he
+      have := (List.mem_filter.mp he).2
+      simpa using this
+    rw [hproc] at hsf
+    have hadds : (proc.map lift).flatMap (sAdds s) = proc.flatMap fun e => sAdds s (lift e) := by
+      rw [List.flatMap_map]
+    have hflds : (proc.map lift).flatMap (sFields s) = proc.flatMap fun e => sFields s (lift e) := by
+      rw [List.flatMap_map]
+    have hnext : (proc.map lift).flatMap (sNext s) = (proc.flatMap (mNext s)).map lift := by
+      rw [List.flatMap_map, List.map_flatMap]
+      apply flatMap_congr'
+      intro e he
+      exact sNext_lift s U h e (hpU e he)
+    -- keys of this level are fresh in the empty per-level table
+    have hLn : ((proc.flatMap fun e => sAdds s (lift e)).map (fun x => x.1.name)).Nodup := by
+      have h1 : (proc.flatMap fun e => sAdds s (lift e)).map (·.1) = proc.flatMap fun e => declM s e.typ := by
+        rw [List.map_flatMap]; congr 1; funext e; exact sAdds_methods s e
+      have h2 : (proc.flatMap fun e => sAdds s (lift e)).map (fun x => x.1.name) =
+          ((proc.flatMap fun e => sAdds s (lift e)).map (·.1)).map (·.name) := by simp [List.map_map, Function.comp_def]
+      rw [h2, h1]; exact hnames
+    have hmsetS := foldl_addOne (proc.flatMap fun e => sAdds s (lift e)) []
+      (by simpa using nodup_of_comp (fun x : Method × Bool × Bool => mkey x.1) (fun k => k.1) _ hLn)
+    simp only [List.nil_append] at hmsetS
+    rw [hadds, hmsetS, hflds, hnext] at hsf
+    -- the invariant after this level
+    have inv' := level_step s U h proc mseen baseM baseS hpU hpun hnames inv
+    -- unfold both loops one step
+    simp only [msLoop, sLoop, List.map_cons]
+    have hcons : lift e0 :: List.map lift r0 = (e0 :: r0).map lift := rfl
+    rw [hcons, hmf.1, hmf.2.1, hmf.2.2, hsf.1, hsf.2.1, hsf.2.2.1, hsf.2.2.2]
+    cases f with
+    | zero =>
+      simp only [msLoop, sLoop]
+      exact inv_final s U _ _ _ inv' m
+    | succ f' =>
+      have hndn : ((proc.flatMap (mNext s)).map (·.typ)).Nodup := hwnext.1
+      have hcons2 : consolidate [] ((proc.flatMap (mNext s)).map lift) = (proc.flatMap (mNext s)).map lift := by
+        rw [consolidate_nodup _ [] (by simpa [List.map_map, Function.comp_def, lift] using hndn)]
+        simp
+      rw [hcons2]
+      apply loops_agree s U h (f' + 1) (proc.flatMap (mNext s)) _ _ _ _ _ hwnext
+      · intro e he
+        obtain ⟨x, hx, hex⟩ := List.mem_flatMap.mp he
+        apply h.closed x.typ (hpU x hx)
+        rw [← mNext_typ]
+        exact List.mem_map_of_mem hex
+      · intro e he
+        obtain ⟨x, hx, hex⟩ := List.mem_flatMap.mp he
+        exact Or.inl (mNext_named s U h x (hpU x hx) e hex)
+      · intro i hi
+        simp only [List.mem_append, List.mem_reverse, List.mem_map, List.mem_filter]
+        constructor
+        · rintro (⟨x, ⟨⟨y, hy, rfl⟩, _⟩, rfl⟩ | hh)
+          · exact Or.inl ⟨y, hy, rfl⟩
+          · exact Or.inr ((hseen i hi).mp hh)
+        · rintro (⟨x, hx, rfl⟩ | hh)
+          · exact Or.inl ⟨lift x, ⟨⟨x, hx, rfl⟩, by simpa [lift] using hi⟩, rfl⟩
+          · exact Or.inr ((hseen i hi).mpr hh)
+      · exact inv'
+
+/-! ## 7. the theorem -/
+
+/-- where both walks start for the type object `t`: `*T` (unnamed pointer) starts at `T` with indirection -/
+def startEnt (s : St) (t : Nat) : Ent :=
+  if (s.get t).kind = kPtr ∧ (s.get t).named = false then ⟨(s.get t).elem, true⟩ else ⟨t, false⟩
+
+theorem inv_empty (s : St) (U : List Nat) : Inv s U [] [] [] := by
+  constructor <;> intros <;> simp_all
+
+/-- **`methodset_correct`** (general form): let `U` contain the start type and be closed under embedding, let the
+    declarations in `U` be clean (`CleanOn`), and let no selector be ambiguous at its depth (`WalkClean`). Then the
+    run-time method set computed by `$methodSet` — with promotion through embedded fields by depth, shadowing by shallower
+    declarations, and pointer indirection — is exactly the Go method set. -/
+theorem methodset_correct_clean (s : St) (t : Nat) (U : List Nat) (h : CleanOn s U)
+    (hstart : (startEnt s t).typ ∈ U) (hw : WalkClean s (s.size + 1) [startEnt s t] []) :
+    ∀ m, m ∈ methodSet s t ↔ m ∈ specMethodSet s (ptrOfM s) t := by
+  intro m
+  unfold methodSet methodSetAux specMethodSet specTable
+  by_cases hp : (s.get t).kind = kPtr ∧ (s.get t).named = false
+  · have hp' : (s.get t).kind = kPtr ∧ (!(s.get t).named) = true := ⟨hp.1, by simp [hp.2]⟩
+    by_cases hi : (s.get (s.get t).elem).kind = kInterface
+    · simp [hp, hp', hi]
+    · have hst : startEnt s t = ⟨(s.get t).elem, true⟩ := by simp [startEnt, hp]
+      rw [hst] at hstart hw
+      have := loops_agree s U h (s.size + 1) [⟨(s.get t).elem, true⟩] [] [] [] [] [] hw
+        (by intro e he; simp only [List.mem_singleton] at he; rw [he]; exact hstart)
+        (by intro e _; exact Or.inr (by simp)) (by intro i _; simp) (inv_empty s U) m
+      simpa [hp, hp', hi, lift] using this
+  · have hp' : ¬((s.get t).kind = kPtr ∧ (!(s.get t).named) = true) := by
+      intro hh; exact hp ⟨hh.1, by simpa using hh.2⟩
+    have hst : startEnt s t = ⟨t, false⟩ := by simp [startEnt, hp]
+    rw [hst] at hstart hw
+    have := loops_agree s U h (s.size + 1) [⟨t, false⟩] [] [] [] [] [] hw
+      (by intro e he; simp only [List.mem_singleton] at he; rw [he]; exact hstart)
+      (by intro e _; exact Or.inr (by simp)) (by intro i _; simp) (inv_empty s U) m
+    simpa [hp, hp', lift] using this
+
+/-! ## 8. the hypotheses are decidable (used by the driver to report how many probes the theorem covers) -/
+
+def CleanP1 (s : St) (U : List Nat) : Prop := ∀ u ∈ U, ∀ v ∈ succIds s u, v ∈ U
+def CleanP2 (s : St) (U : List Nat) : Prop :=
+  ∀ u ∈ U, (s.get u).kind = kStruct → ∀ f ∈ (s.get u).fields, f.embedded = true →
+    (if (s.get f.typ).kind = kPtr then (s.get f.typ).named = false ∧ (s.get (s.get f.typ).elem).named = true
+     else (s.get f.typ).named = true)
+def CleanP3 (s : St) (U : List Nat) : Prop := ∀ u ∈ U, (s.get u).kind = kInterface → ptrMethods s u = []
+def CleanP4 (s : St) (U : List Nat) : Prop :=
+  ∀ u ∈ U, ∀ v ∈ U, ∀ m ∈ declM s u, ∀ m' ∈ declM s v, m.name = m'.name → m.pkg = m'.pkg
+def CleanP5 (s : St) (U : List Nat) : Prop :=
+  ∀ u ∈ U, (s.get u).kind = kStruct → ∀ f ∈ (s.get u).fields, ∀ v ∈ U, ∀ m ∈ declM s v, f.name ≠ m.name
+def CleanP6 (s : St) (U : List Nat) : Prop :=
+  ∀ u ∈ U, (s.get u).named = true → (s.get u).kind ≠ kInterface → ∀ m ∈ ptrMethods s u,
+    ∀ v ∈ U, ∀ m' ∈ declM s v, m'.name = m.name → v = u
+
+instance (s : St) (U : List Nat) : Decidable (CleanP1 s U) := by unfold CleanP1; infer_instance
+instance (s : St) (U : List Nat) : Decidable (CleanP2 s U) := by unfold CleanP2; infer_instance
+instance (s : St) (U : List Nat) : Decidable (CleanP3 s U) := by unfold CleanP3; infer_instance
+instance (s : St) (U : List Nat) : Decidable (CleanP4 s U) := by unfold CleanP4; infer_instance
+instance (s : St) (U : List Nat) : Decidable (CleanP5 s U) := by unfold CleanP5; infer_instance
+instance (s : St) (U : List Nat) : Decidable (CleanP6 s U) := by unfold CleanP6; infer_instance
+
+theorem cleanOn_iff (s : St) (U : List Nat) : CleanOn s U ↔
+    (CleanP1 s U ∧ CleanP2 s U ∧ CleanP3 s U ∧ CleanP4 s U ∧ CleanP5 s U ∧ CleanP6 s U) :=
+  ⟨fun h => ⟨h.closed, h.embwf, h.ifaceptr, h.pkg, h.field, h.ptr⟩, fun ⟨a, b, c, d, e, f⟩ => ⟨a, b, c, d, e, f⟩⟩
+
+instance (s : St) (U : List Nat) : Decidable (CleanOn s U) := decidable_of_iff _ (cleanOn_iff s U).symm
+
+/-- the embedding closure of `t` (every type either walk can reach) -/
+def closureU (s : St) (t : Nat) : List Nat :=
+  (List.range s.size).foldl (fun acc _ => (acc ++ acc.flatMap (succIds s)).eraseDups) [(startEnt s t).typ]
+
+/-- the hypothesis of `methodset_correct_clean`, instantiated with the embedding closure -/
+def theoremCovers (s : St) (t : Nat) : Bool :=
+  decide (CleanOn s (closureU s t) ∧ (startEnt s t).typ ∈ closureU s t ∧ WalkClean s (s.size + 1) [startEnt s t] [])
+
+theorem covered_correct (s : St) (t : Nat) (h : theoremCovers s t = true) :
+    ∀ m, m ∈ methodSet s t ↔ m ∈ specMethodSet s (ptrOfM s) t := by
+  have h' := of_decide_eq_true h
+  exact methodset_correct_clean s t (closureU s t) h'.1 h'.2.1 h'.2.2
+
+end GV.Props.C09
